@@ -237,7 +237,7 @@ Fixpoint replay (m : pmap) (rs : list out) : option pmap :=
 
 (* o is the live replica of k in instance i *)
 Definition replica (s : st) (i : iid) (k : key) (o : oid) : Prop :=
-  exists ob, cache_get s i k = Some (o, ob) /\ osrc ob = SFile k.
+  exists ob, cache_get s i k = Some (o, ob) /\ osrc ob = SFile k /\ okey ob = k.
 
 (* while running ops from s the document of k exists after every step, and the client neither
    drops o, clears its source, nor replaces instance i *)
